@@ -31,7 +31,7 @@ def run(ctx):
     ctx.rule("C07.lockset", "static Eraser: every access to a non-atomic shared field happens with its guard held in a "
              "sufficient mode, on every instantiated method", floor=300)
     for cls in sorted(tab):
-        ctx.step(check_guarded_fields, ctx, "C07.lockset", cls)
+        ctx.step(check_guarded_fields, ctx, "C07.lockset", cls, skip_atomic=True)
     atab = json.load(open(os.path.join(os.path.dirname(os.path.dirname(os.path.dirname(os.path.abspath(__file__)))),
                                        "tables", "atomics.json")))
     ctx.step(common.atomic_floors, ctx, "C07.orders", sorted(atab["fields"]), floor=80)
